@@ -1424,23 +1424,74 @@ Proof.
     + apply (magic_decided _ _ Ei C2).
 Qed.
 
+(* ---- headersEnd stops at the end of an empty line ---- *)
+Definition at_line_start (q : bytes) : Prop := q = [] \/ exists q', q = q' ++ [10].
+Definition he_inv (st : N) (pre : bytes) : Prop :=
+  if st =? 0 then True
+  else if st =? 1 then at_line_start pre
+  else exists p, pre = p ++ [13] /\ at_line_start p.
+(* p ends with an empty line: q is empty or LF-terminated, followed by LF or CR LF *)
+Definition ends_with_empty_line (p : bytes) : Prop :=
+  exists q eol, p = q ++ eol /\ (eol = [10] \/ eol = [13; 10]) /\ at_line_start q.
+
+Lemma headers_end_go_sound l : forall st e f e' f' pre,
+  headers_end_go l st e f = (e', f') -> e' <> 0 -> he_inv st pre ->
+  ends_with_empty_line (pre ++ takeN (e' - e) l).
+Proof.
+  induction l as [|c r IH]; intros st e f e' f' pre H Hne Hinv.
+  - cbn [headers_end_go] in H. inversion H; subst. congruence.
+  - pose proof (headers_end_go_found_range _ _ _ _ _ _ H Hne) as Hr.
+    assert (Htk : forall e2, e2 = N.succ e -> pre ++ takeN (e' - e) (c :: r) = (pre ++ [c]) ++ takeN (e' - e2) r).
+    { intros e2 ->. cbn [takeN]. destruct (e' - e =? 0) eqn:E0; [apply N.eqb_eq in E0; lia|].
+      replace (N.pred (e' - e)) with (e' - N.succ e) by lia. rewrite <- app_assoc. reflexivity. }
+    assert (Hone : e' = N.succ e -> pre ++ takeN (e' - e) (c :: r) = pre ++ [c]).
+    { intros ->. replace (N.succ e - e) with 1 by lia. cbn [takeN N.eqb N.pred Pos.pred_N]. rewrite takeN_0. reflexivity. }
+    cbn [headers_end_go] in H. unfold he_inv in Hinv.
+    destruct (st =? 0) eqn:S0.
+    + rewrite (Htk _ eq_refl). eapply IH; [exact H|exact Hne|].
+      unfold he_inv. destruct (c =? 10) eqn:Ec; cbn [N.eqb Pos.eqb]; [|exact I].
+      apply N.eqb_eq in Ec; subst c. right. exists pre. reflexivity.
+    + destruct (st =? 1) eqn:S1.
+      * destruct (c =? 13) eqn:E13.
+        { apply N.eqb_eq in E13; subst c. rewrite (Htk _ eq_refl). eapply IH; [exact H|exact Hne|].
+          unfold he_inv. cbn [N.eqb Pos.eqb]. exists pre. auto. }
+        destruct (c =? 10) eqn:E10.
+        { apply N.eqb_eq in E10; subst c. inversion H; subst. rewrite (Hone eq_refl).
+          exists pre, [10]. auto. }
+        destruct ((c =? 32) || (c =? 9)); rewrite (Htk _ eq_refl); (eapply IH; [exact H|exact Hne|exact I]).
+      * destruct (c =? 10) eqn:E10.
+        { apply N.eqb_eq in E10; subst c. inversion H; subst. rewrite (Hone eq_refl).
+          destruct Hinv as (p & -> & Hp). exists p, [13; 10]. rewrite <- app_assoc. auto. }
+        rewrite (Htk _ eq_refl). eapply IH; [exact H|exact Hne|exact I].
+Qed.
+
+Lemma headers_end_sound b e f : headers_end b = (e, f) -> e <> 0 -> ends_with_empty_line (takeN e b).
+Proof.
+  intros H Hne. unfold headers_end in H.
+  pose proof (headers_end_go_sound b 1 0 false e f [] H Hne (or_introl eq_refl)) as Hs.
+  rewrite N.sub_0_r in Hs. exact Hs.
+Qed.
+
 (* ---- lifting to parse(): what an accepted reply looks like ---- *)
 Lemma grab_mime_frame limit s b ok s' k :
   grab_mime limit s b = (ok, s', k) ->
   p_proto s' = p_proto s /\ p_major s' = p_major s /\ p_minor s' = p_minor s /\
   p_status s' = p_status s /\ p_reason s' = p_reason s /\ p_completed s' = p_completed s /\
   (p_code s' = p_code s \/ p_code s' = sc_header_too_large) /\
-  (ok = true -> exists block, b = block ++ k).
+  (ok = true ->
+   (proto_eqb (p_proto s) PHttp && (p_major s =? 1) || proto_eqb (p_proto s) PIcy) = true ->
+   exists block, b = block ++ k /\ ends_with_empty_line block).
 Proof.
   unfold grab_mime.
   destruct (proto_eqb (p_proto s) PHttp && (p_major s =? 1) || proto_eqb (p_proto s) PIcy).
-  2:{ intros H; inversion H; subst; cbn. repeat split; auto. intros _. exists []. reflexivity. }
-  destruct (headers_end b) as [e fold]. destruct (e =? 0).
+  2:{ intros H; inversion H; subst; cbn. repeat split; auto. discriminate. }
+  destruct (headers_end b) as [e fold] eqn:Eh. destruct (e =? 0) eqn:E0.
   - destruct (limit <=? lenN b + first_line_size s); intros H; inversion H; subst; cbn;
       repeat split; auto; discriminate.
   - destruct (limit <=? first_line_size s + e); intros H; inversion H; subst; cbn;
       repeat split; auto; try discriminate.
-    intros _. exists (takeN e b). symmetry. apply takeN_dropN.
+    intros _ _. exists (takeN e b). split; [symmetry; apply takeN_dropN|].
+    apply N.eqb_neq in E0. apply (headers_end_sound _ _ _ Eh E0).
 Qed.
 
 Lemma parse_fresh_nonempty relaxed limit c b :
@@ -1455,6 +1506,7 @@ Theorem accepted_reply_shape relaxed limit b f rest : lenN b < npos ->
   (no_magic_relation b /\ f = gateway_fields /\ rest = b) \/
   (exists line proto major minor status reason block,
      b = line ++ block ++ rest /\ status_line relaxed line proto major minor status reason /\
+     ends_with_empty_line block /\
      f_proto f = proto /\ f_major f = major /\ f_minor f = minor /\ f_status f = status /\
      f_reason f = reason).
 Proof.
@@ -1476,9 +1528,11 @@ Proof.
       destruct ok; cbn [obs].
       * destruct (needs_more s3); cbn [negb]; [discriminate|].
         intros H; inversion H; subst. right.
-        destruct (G8 eq_refl) as [block Hblock].
+        assert (Hexp : (proto_eqb proto PHttp && (major =? 1) || proto_eqb proto PIcy) = true)
+          by (destruct Hg; reflexivity).
+        destruct (G8 eq_refl Hexp) as (block & Hblock & Hempty).
         exists line, proto, major, minor, status, reason, block.
-        split; [rewrite Hb, Hblock; reflexivity|]. split; [exact Hg|].
+        split; [rewrite Hb, Hblock; reflexivity|]. split; [exact Hg|]. split; [exact Hempty|].
         unfold fields_of; cbn [f_proto f_major f_minor f_status f_reason].
         rewrite G1, G2, G3, G4, G5. cbn. auto.
       * destruct (needs_more s3); discriminate.
